@@ -559,8 +559,8 @@ def execute(tier, seed, limit=0):
     cov = {
         "states": int(s.get("sched_points", 0)), "transitions": int(s.get("sched_points", 0) + s.get("switches", 0)),
         "traces_validated_against_impl": int(s.get("schedules", 0)),
-        "samples": [{"threads": 2, "config": "shared", "decisions": {"0": 1, "17": 0}},
-                    {"nesting": "fun", "j": 3}, seq[0]["tag"] if seq else {}],
+        "samples": [it if it["kind"] != "seq" else {"kind": "seq", "case_tag": it["case"]["tag"]}
+                    for it in (items[0], items[len(seq)], items[-1])],
         "exhaustive": True,
         "schedules_explored": int(s.get("schedules", 0)), "preemption_bound_completed": 2 if tier == "thorough" else 1,
         "thread_plans": [list(p) for p in plans],
